@@ -54,6 +54,9 @@ impl VarIntEncoder {
     }
     
     /// Create encoder for group varint strategy
+    ///
+    /// Sequences store 1..=4 bytes per value: encoding a sequence that holds a value
+    /// above `u32::MAX` (or a negative `i64`) returns an error.
     pub fn group_varint() -> Self {
         Self::new(VarIntStrategy::GroupVarint)
     }
@@ -551,6 +554,13 @@ impl VarIntEncoder {
                 } else {
                     ((64 - value.leading_zeros() + 7) / 8) as usize
                 };
+                
+                // The selector has room for 1..=4 bytes only
+                if bytes_needed > 4 {
+                    return Err(ZiporaError::invalid_data(
+                        "Group varint cannot encode a value above u32::MAX",
+                    ));
+                }
                 
                 // Encode bytes needed in selector (2 bits per value)
                 selector |= ((bytes_needed - 1) as u8) << (i * 2);
